@@ -3,11 +3,11 @@ CONSTANTS
   NB = 1
   Par <- MC_Par4
   GitOnly = {4}
-  MaxSteps = 5
+  MaxSteps = 0
   MaxTerms = 5
-  Emit = "all"
+  Emit = "none"
   Bug = "none"
 CONSTRAINT Small
 VIEW View
-INVARIANTS InvStep InvConverge InvIdem
+INVARIANTS TypeOK InvStep InvConverge InvIdem InvRecordsAgree InvConflictSmall InvBookmarksKnown
 CHECK_DEADLOCK FALSE
